@@ -19,6 +19,20 @@ partial def toDV (buf : Buf) : Json → DV
   | .arr xs => .arrNode (xs.map (toDV buf))
   | .obj ms => .objNode (ms.map fun (k, v) => (k, toDV buf v))
 
+/-- a value built in memory (`to_value`): every container is owned from the start -/
+partial def toDVMut (buf : Buf) : Json → DV
+  | .null => .null
+  | .bool b => .bool b
+  | .num s e => .num (spanInt buf s e)
+  | .str s => .str s
+  | .arr xs => .arrMut (xs.map (toDVMut buf))
+  | .obj ms => .objMut (ms.map fun (k, v) => (k, toDVMut buf v))
+
+def docDVMut (h : String) : Option DV :=
+  match unhex h with
+  | some buf => (docTree false buf).map (toDVMut buf)
+  | none => none
+
 def docDV (h : String) : Option DV :=
   match unhex h with
   | some buf => (docTree false buf).map (toDV buf)
@@ -68,6 +82,7 @@ def showOut (o : Out DV) : String :=
   match o with
   | .done => "done"
   | .val v => "val:" ++ dumpJ (abs v)
+  | .vals vs => "vals:[" ++ String.intercalate "," (vs.map fun v => dumpJ (abs v)) ++ "]"
   | .none => "none"
   | .missing => "missing"
   | .panic => "panic"
@@ -76,6 +91,7 @@ def showOutJ (o : Out J) : String :=
   match o with
   | .done => "done"
   | .val v => "val:" ++ dumpJ v
+  | .vals vs => "vals:[" ++ String.intercalate "," (vs.map dumpJ) ++ "]"
   | .none => "none"
   | .missing => "missing"
   | .panic => "panic"
@@ -106,11 +122,23 @@ def parseMOp (name : String) (args : List String) : Option (MOp Arg) :=
   | "orins", [k, x] => match unhex k, parseArg x with
     | some k, some x => some (.orInsert k.toList x)
     | _, _ => none
+  | "splitoff", [n] => n.toNat?.map .splitOff
+  | "drain", [a, b] => match a.toNat?, b.toNat? with
+    | some a, some b => some (.drain a b)
+    | _, _ => none
+  | "extw", [a, b] => match a.toNat?, b.toNat? with
+    | some a, some b => some (.extendWithin a b)
+    | _, _ => none
+  | "resize", [n, x] => match n.toNat?, parseArg x with
+    | some n, some x => some (.resize n x)
+    | _, _ => none
+  | "retnn", [] => some .retainNonNull
   | _, _ => none
 
 def parseHOp (w : String) : Option HOp :=
   match w.splitOn ":" with
   | ["P", h] => (docDV h).map .new
+  | ["B", h] => (docDVMut h).map .new
   | ["C", i] => i.toNat?.map .clone
   | ["D", i] => i.toNat?.map .drop
   | ["G", i, path] => match i.toNat?, parsePath15 path with
@@ -122,7 +150,7 @@ def parseHOp (w : String) : Option HOp :=
   | _ => none
 
 def showStep (w : String) (o : String) : String :=
-  if w.startsWith "P" || w.startsWith "C" || w.startsWith "D" then "ok" else o
+  if w.startsWith "P" || w.startsWith "B" || w.startsWith "C" || w.startsWith "D" then "ok" else o
 
 /-- the history on the representation model (`DV.hstep`): per step `result|dumps|skeletons` -/
 def runDV (prog : String) : String :=
